@@ -79,3 +79,23 @@ def op_spec(d):
     item[d["method"]] = op
     s["paths"][d["path"]] = item
     return s
+
+
+def ops_spec(ops):
+    """several operations (each as in op_spec, plus `opid` and `responses` as [[key,[[ct,kind]]]])."""
+    s = base_spec()
+    for d in ops:
+        d2 = dict(d)
+        if isinstance(d.get("responses"), list):
+            d2["responses"] = resp_spec(d["responses"])["paths"]["/op"]["get"]["responses"] or {"200": {"description": "ok"}}
+        one = op_spec(d2)
+        for path, item in one["paths"].items():
+            tgt = s["paths"].setdefault(path, {})
+            for k, v in item.items():
+                if k == "parameters":
+                    for p in v:
+                        if p not in tgt.setdefault("parameters", []):
+                            tgt["parameters"].append(p)
+                else:
+                    tgt[k] = v
+    return s
